@@ -92,6 +92,25 @@ CLAIMED = {
         "technique": "machine-checked proof in Rocq (Coq 8.16) of the pod handlers over the converter model + direct oracle on pod/container sets + differential correspondence",
         "design": "DESIGN.md §7 C09",
     },
+    "C10": {
+        "text": "PARTIAL. Rocq theorems over the process/output model: C10_exit (exit status 1 exactly when the error list is non-empty, 0 exactly when it is empty), C10_one_result_per_file, "
+                "C10_each_unit_converted_once (every loadable file is handed to its converter exactly once, in a type-priority-sorted permutation of the input). Independence of a valid unit's service from "
+                "unrelated files (valid, malformed, failing), from placements over search directories and from creation order, and that every failure is logged with the file's path, are decided by the metamorphic "
+                "end-to-end oracle (base set alone vs. base set + extras, service by service), together with the whole-set correspondence of the Process model used by C08/C09.",
+        "note": "Trusted: Coq kernel; the process/output models; the logger (ERROR lines are matched by file name); a pod's service legitimately depends on member containers (excluded from the extras).",
+        "technique": "machine-checked proof in Rocq (Coq 8.16) of the process bookkeeping + metamorphic end-to-end oracle",
+        "design": "DESIGN.md §7 C10",
+    },
+    "C11": {
+        "text": "PARTIAL by nature. Rocq theorems: C11_parsed_units_validated and C11_merged_units_validated (every unit the parser returns, and every merge of such units, holds only values that passed "
+                "load-time validation -- an invariant over the one-character-per-step parser machine), C11_lookups_do_not_panic (on such units no look-up reaches unquote().expect()), "
+                "C11_values_have_no_nul, C11_total_functions (the parser is a structurally recursive function: a result for every text, no fuel), C11_pinned_refuted. Every other panic-capable site "
+                "(63 sites) is listed with its status in tools/panic_sites.json and re-scanned on every run; the model carries explicit Panic outcomes whose occurrences are compared with the implementation's "
+                "panics. Fuzzing (in-process under catch_unwind: wild units, unit sets, mutated repository examples; the real binary: adversarial file names and contents) covers the rest by sampling only.",
+        "note": "Trusted: Coq kernel; the panic-site scanner; panics inside csv/walkdir/std/logger, stack exhaustion and allocation failure are not expressible in the model.",
+        "technique": "machine-checked proof in Rocq (Coq 8.16) of validation invariants over the parser machine + panic-site inventory + model-vs-implementation panic correspondence + fuzzing",
+        "design": "DESIGN.md §7 C11",
+    },
     "C12": {
         "text": "PARTIAL. Rocq theorems for the lexical core of enable_service_file over the std::path model: C12_inside (normalising any relative path yields k times '..' followed by plain "
                 "names), C12_accepted_alias_is_plain (an Alias word passing the repaired filter normalises to plain names only -- never absolute, never climbing), C12_resolves (a link n "
